@@ -412,6 +412,7 @@ func c06(tier string) int {
 		wg.Wait()
 	}
 	total += c06Syscalls(run, u, gen, la, lb, hists)
+	total += c06Binary(run, u, gen, la, lb)
 	for _, k := range []string{"last-acknowledged", "being-written"} {
 		if run.HistGet("state_after_restart", k) == 0 {
 			run.Vacuous("no crash point left the store at %s", k)
@@ -420,7 +421,7 @@ func c06(tier string) int {
 	run.Set("evaluations", total)
 	run.Set("crash_points", total)
 	run.Set("exhaustive", true)
-	run.Set("rule", "for histories H1 (first use, growth, refresh of one log) and H2 (two logs interleaved, a refused fork growth and a refused same-size fork between the writes): the worker process is SIGKILLed before and after EVERY database/sql driver operation (open/begin/prepare/query/next/rows-close/stmt-close/exec/commit/rollback, numbered by a wrapping driver) of a crash-free reference run on a file-backed SQLite store; a FRESH process reopens the store (SQLite recovers from the hot journal) and reports the state and probes; additionally a kill at every file syscall (pwrite64/fsync/fdatasync/unlink/ftruncate) on the database and its journal via strace injection. Oracle: stored rows are complete validly cosigned notes; in-flight log = last acknowledged or being written, others exactly last acknowledged; restarted witness refuses forks and accepts growth. distinct_nontrivial = distinct crash points")
+	run.Set("rule", "for histories H1 (first use, growth, refresh of one log) and H2 (two logs interleaved, a refused fork growth and a refused same-size fork between the writes): the worker process is SIGKILLed before and after EVERY database/sql driver operation (open/begin/prepare/query/next/rows-close/stmt-close/exec/commit/rollback, numbered by a wrapping driver) of a crash-free reference run on a file-backed SQLite store; a FRESH process reopens the store (SQLite recovers from the hot journal) and reports the state and probes; additionally a kill at every file syscall (pwrite64/fsync/fdatasync/unlink/ftruncate) on the database and its journal via strace injection. Binary tier: the real cmd/omniwitness binary (its own flags, its own way of opening --db_file, omniwitness.Main, serverless feeders polling stub logs over loopback HTTP) is SIGKILLed after each acknowledged update of a two-log history and restarted twice on the same file. Oracle: stored rows are complete validly cosigned notes; in-flight log = last acknowledged or being written, others exactly last acknowledged; restarted witness refuses forks and accepts growth. distinct_nontrivial = distinct crash points")
 	run.Assumption("process kill, not power loss: everything the kernel accepted survives; torn sectors and lost un-fsynced writes are not explored")
 	// Fault leg: an update is acknowledged only when its commit succeeded
 	// (every single SQL-driver / interface fault in the C07 histories; an
@@ -437,6 +438,17 @@ func c06Replay(m map[string]any) int {
 	hn, _ := m["history"].(string)
 	k := int(m["k"].(float64))
 	ph, _ := m["phase"].(string)
+	if mode, _ := m["mode"].(string); mode == "binary" {
+		run := ev.NewRun("C06-replay", "quick", "fault_enumeration")
+		run.Scratch = true
+		c06BinaryPoint(run, u, gen, la, lb, k, true)
+		if run.Violations() > 0 {
+			fmt.Println("REPRODUCED")
+			return 1
+		}
+		fmt.Println("not reproduced")
+		return 0
+	}
 	steps := c06History(hn, u, gen, la, lb)
 	db := filepath.Join(scratch, "replay.db")
 	defer os.Remove(db)
